@@ -40,7 +40,7 @@ def inputs(ctx, rng):
         for name in sorted(progs):
             if name in progrun.HEAVY:
                 continue
-            if not ctx.thorough and name not in ("closure2", "loops_jumps", "try_with", "consts", "manylines", "generators"):
+            if not ctx.thorough and name not in ("closure2", "loops_jumps", "try_with", "consts", "manylines", "generators", "kinds_in_sets", "shared_sets"):
                 continue
             o = progcheck.oracle_compile(v, name, progs[name], oracles)
             if "pyc" in o:
